@@ -424,6 +424,14 @@ def run(ctx):
                 % ((sd[0], sd[2][:120]) if sd else ("none", "none")))
     revision_dispatch(ctx, F)
     password_truncation(ctx, F)
+    # Algorithm 2(d) / 13 hash the P entry *of the file*: the permissions kept by PasswordAlgorithm are from_bits_truncate(P) of the
+    # value read, with nothing ORed in or masked out on the way (a "normalised" P derives another key than the file's writer did)
+    tf = F.fn("<PasswordAlgorithm as TryFrom>::try_from")
+    lits_ = list(lib.struct_literals(tf, "PasswordAlgorithm"))
+    perm = [tf.sname(x[2]["permissions"], 8) for x in lits_ if "permissions" in x[2]]
+    okp = bool(perm) and all(re.match(r"^(?:\w+::)*from_bits_truncate\(", t) and not re.search(r"bitor|bitand|bitxor|union\(|insert\(|remove\(|difference\(|BitOr|BitAnd", t.split("(", 1)[0]) for t in perm)
+    ctx.ob(R, "alg2.P-as-read", okp, "PasswordAlgorithm.permissions = from_bits_truncate(P as read)", tf.where(),
+           what="the permissions value kept for the key derivation is not the /P entry as read (%s): Algorithm 2(d) and Algorithm 13 then hash another P than the producer of the file did, and the right password is rejected" % [t[:70] for t in perm])
     # 7.6.3.2 / 7.6.5: which objects are exempt (the cross-reference stream, an unencrypted Metadata stream, Identity-filtered
     # streams) is decided the same way when encrypting and when decrypting
     import prop_c05
